@@ -751,9 +751,13 @@ where
     S: BuildHasher + Clone + Send + Sync + 'static,
 {
     fn has_enough_capacity(&self, candidate_weight: u32, counters: &EvictionCounters) -> bool {
-        self.max_capacity
-            .map(|limit| counters.weighted_size + candidate_weight as u64 <= limit)
-            .unwrap_or(true)
+        // A zero-weight candidate needs no room, even while the cache is (temporarily)
+        // over its capacity.
+        candidate_weight == 0
+            || self
+                .max_capacity
+                .map(|limit| counters.weighted_size + candidate_weight as u64 <= limit)
+                .unwrap_or(true)
     }
 
     fn weights_to_evict(&self, counters: &EvictionCounters) -> u64 {
